@@ -215,10 +215,24 @@ func (c *Compiler) expandModule(module *parse.Module) {
 	nod := module.GetModule()
 
 	// Expand Groupings
+	applied := make(map[parse.Node]bool)
+	for _, u := range nod.ChildrenByType(parse.NodeUses) {
+		applied[u] = true
+	}
 	if err := c.expandGroupings(nod, nod, schema.Current); err != nil {
 		c.error(nod, err)
 	}
 	for _, sm := range module.GetSubmodules() {
+		// The data definitions at the top of a submodule are children of
+		// the module as well (ProcessModuleIncludes).  A uses among them
+		// has been applied there; applying it a second time would hand
+		// the nodes of its augments their when, if-feature and status
+		// statements twice.
+		for _, u := range sm.ChildrenByType(parse.NodeUses) {
+			if applied[u] {
+				sm.ReplaceChild(u)
+			}
+		}
 		if err := c.expandGroupings(nod, sm, schema.Current); err != nil {
 			c.error(sm, err)
 		}
